@@ -16,6 +16,7 @@ import (
 	"sort"
 	"strconv"
 	"strings"
+	"syscall"
 	"time"
 	"unicode/utf8"
 
@@ -71,22 +72,92 @@ func c12Teardown() {
 	}
 }
 
+// A shape token is `<path shape>` or `<path shape>+<environment>`. The path shapes: abs, rel, dotrel, bare (directory
+// exists), nodir, relnodir (it does not). The environment is what the PROCESS looks like while the loaders work, as far
+// as it is not the session path's directory: Store and Load are given a path and have to get along with that path's
+// directory alone, whatever else the process can or cannot write to. Environments:
+//   notmp    TMPDIR names a directory that does not exist (a container without /tmp, a removed per-login temp dir)
+//   tmpfile  TMPDIR names a regular file
+//   tmpdev   TMPDIR names a directory on ANOTHER filesystem than the session path's (a tmpfs /tmp, PrivateTmp=); on a
+//            machine where no such directory can be found the variable is left alone
+// os.TempDir reads the variable on every call; it is set for the operation only and put back by the cleanup function.
+func c12SplitShape(shape string) (base, env string) {
+	if i := strings.IndexByte(shape, '+'); i >= 0 {
+		return shape[:i], shape[i+1:]
+	}
+	return shape, ""
+}
+
+var c12Envs = []string{"notmp", "tmpfile", "tmpdev"}
+
+// c12OtherDevice: a fresh directory on another filesystem than `ref` ("" when there is none); the caller removes it.
+func c12OtherDevice(ref string) string {
+	dev := func(p string) (uint64, bool) {
+		var st syscall.Stat_t
+		if err := syscall.Stat(p, &st); err != nil {
+			return 0, false
+		}
+		return uint64(st.Dev), true
+	}
+	d0, ok := dev(ref)
+	if !ok {
+		return ""
+	}
+	for _, c := range []string{"/dev/shm", "/run", "/var/tmp", "/tmp"} {
+		if d, ok := dev(c); ok && d != d0 {
+			if dir, err := os.MkdirTemp(c, "c12-scratch-tmpdir-"); err == nil {
+				return dir
+			}
+		}
+	}
+	return ""
+}
+
 // c12Place makes a fresh directory for one operation and returns the path the loaders are given,
-// and a cleanup function (restores the working directory, removes the directory).
-func c12Place(shape string) (path string, done func()) {
+// and a cleanup function (restores the working directory and the environment, removes the directory).
+func c12Place(shapeEnv string) (path string, done func()) {
+	shape, env := c12SplitShape(shapeEnv)
 	c12Counter++
 	top := filepath.Join(c12Root, strconv.Itoa(c12Counter))
 	if err := os.MkdirAll(filepath.Join(top, "d"), 0o755); err != nil {
 		panic(err)
 	}
+	oldTmp, hadTmp := os.LookupEnv("TMPDIR")
+	outside := ""
 	done = func() {
+		if hadTmp {
+			_ = os.Setenv("TMPDIR", oldTmp)
+		} else {
+			_ = os.Unsetenv("TMPDIR")
+		}
 		_ = os.Chdir(c12Home)
 		_ = os.RemoveAll(top)
+		if outside != "" {
+			_ = os.RemoveAll(outside)
+		}
 	}
 	cd := func() {
 		if err := os.Chdir(top); err != nil {
 			panic(err)
 		}
+	}
+	switch env {
+	case "":
+	case "notmp":
+		_ = os.Setenv("TMPDIR", filepath.Join(top, "no-such-directory"))
+	case "tmpfile":
+		f := filepath.Join(top, "not-a-directory")
+		if err := os.WriteFile(f, []byte("x"), 0o600); err != nil {
+			panic(err)
+		}
+		_ = os.Setenv("TMPDIR", f)
+	case "tmpdev":
+		if outside = c12OtherDevice(top); outside != "" {
+			_ = os.Setenv("TMPDIR", outside)
+		}
+	default:
+		done()
+		panic("bad environment token: " + env)
 	}
 	switch shape {
 	case "abs":
@@ -114,7 +185,13 @@ func c12Place(shape string) (path string, done func()) {
 
 var c12Shapes = []string{"abs", "rel", "dotrel", "bare", "nodir", "relnodir"}
 
-func c12DirExists(shape string) bool { return shape != "nodir" && shape != "relnodir" }
+func c12DirExists(shapeEnv string) bool {
+	shape, _ := c12SplitShape(shapeEnv)
+	return shape != "nodir" && shape != "relnodir"
+}
+
+// c12InEnv: the shape with one of the environments attached
+func c12InEnv(g *G, shape string) string { return shape + "+" + c12Envs[g.R.Intn(len(c12Envs))] }
 
 // ---- canonical output ---------------------------------------------------------------------------
 
@@ -299,6 +376,11 @@ func c12Exec(op []string) string {
 		return out
 	case "c12.resume":
 		return c12Resume(op[1], c12ParseSess(op[2]))
+	case "c12.cfg":
+		if len(op) != 6 {
+			return "bad-op"
+		}
+		return c12Cfg(op[1], op[2], op[3], c12ParseSess(op[4]), c12ParseSess(op[5]))
 	}
 	return "bad-op"
 }
@@ -485,6 +567,142 @@ func c12Resume(present string, s c12Sess) string {
 	return fmt.Sprintf("enc=%s key=%s salt=%d saved=%s", enc, showBytes(key), salt, saved)
 }
 
+// c12Mem is a session storage of the application's own (the SessionLoader interface): it holds a session or nothing.
+type c12Mem struct{ s *session.Session }
+
+func c12Copy(s *session.Session) *session.Session {
+	return &session.Session{Key: append([]byte(nil), s.Key...), Hash: append([]byte(nil), s.Hash...), Salt: s.Salt, Hostname: s.Hostname}
+}
+
+func (m *c12Mem) Load() (*session.Session, error) {
+	if m.s == nil {
+		return nil, errs.NotFound("session", "c12Mem")
+	}
+	return c12Copy(m.s), nil
+}
+
+func (m *c12Mem) Store(s *session.Session) error {
+	m.s = c12Copy(s)
+	return nil
+}
+
+// c12Cfg: the two ways Config has to name the session storage, set one at a time and BOTH at once.
+//   c12.cfg <storage> <state> <file> <session A> <session B>
+//   <storage>  what Config.SessionStorage is: file (session.NewFromFile on a path of its own), mem (a c12Mem), nil
+//   <state>    1: that storage holds session A     0: it holds nothing
+//   <file>     what Config.AuthKeyFile is: unset (""), or a path (another one than the storage's) at which there is
+//              0: no file   1: the file of session B   t<k>: the first k bytes of it   nodir: not even a directory
+// Config says: "if SessionStorage is nil, AuthKeyFile is required, otherwise it will be ignored". Shown: the client
+// NewMTProto returns; then the storage the Config names is emptied and the client saves its session: what that storage
+// holds afterwards (seen by a fresh loader), and whether the place Config must ignore is as it was.
+//   client=<C…|Cerr:…> saved=<ok:…|err:…|save-failed|-> other=<same|changed|->
+func c12Cfg(kind, state, file string, a, b c12Sess) string {
+	place, done := c12Place("abs")
+	defer done()
+	dir := filepath.Dir(place)
+	storePath := filepath.Join(dir, "storage.json")
+	cfg := mtproto.Config{ServerHost: c12CfgHost}
+	var mem *c12Mem
+	switch kind {
+	case "file":
+		if state == "1" {
+			if err := session.NewFromFile(storePath).Store(a.real()); err != nil {
+				return "store-failed"
+			}
+		}
+		cfg.SessionStorage = session.NewFromFile(storePath)
+	case "mem":
+		mem = &c12Mem{}
+		if state == "1" {
+			mem.s = a.real()
+		}
+		cfg.SessionStorage = mem
+	case "nil":
+	default:
+		return "bad-op"
+	}
+	if state != "0" && state != "1" {
+		return "bad-op"
+	}
+	filePath := filepath.Join(dir, "authkey.json")
+	switch {
+	case file == "unset":
+		filePath = ""
+	case file == "0":
+	case file == "nodir":
+		filePath = filepath.Join(dir, "missing", "authkey.json")
+	case file == "1" || strings.HasPrefix(file, "t"):
+		if err := session.NewFromFile(filePath).Store(b.real()); err != nil {
+			return "store-failed"
+		}
+		if file != "1" {
+			data, err := os.ReadFile(filePath)
+			if err != nil {
+				panic(err)
+			}
+			k := atoi(file[1:])
+			if k > len(data) {
+				k = len(data)
+			}
+			if err := os.WriteFile(filePath, data[:k], 0o600); err != nil {
+				panic(err)
+			}
+		}
+	default:
+		return "bad-op"
+	}
+	cfg.AuthKeyFile = filePath
+	look := func(p string) string { // what is at a path
+		if p == "" {
+			return "unset"
+		}
+		data, err := os.ReadFile(p)
+		if err != nil {
+			return "none"
+		}
+		return "file:" + string(data)
+	}
+	m, err := mtproto.NewMTProto(cfg)
+	if err != nil {
+		if strings.Contains(err.Error(), "AuthKeyFile is empty") {
+			return "client=Cerr:nostorage saved=- other=-"
+		}
+		return "client=" + c12ShowClient(m, err) + " saved=- other=-"
+	}
+	client := c12ShowClient(m, nil)
+	// the storage the Config names is emptied; the place it must ignore is remembered
+	other, otherWas := "", ""
+	switch kind {
+	case "file":
+		_ = os.Remove(storePath)
+		other, otherWas = filePath, look(filePath)
+	case "mem":
+		mem.s = nil
+		other, otherWas = filePath, look(filePath)
+	case "nil":
+		_ = os.Remove(filePath)
+	}
+	saved := "save-failed"
+	if err := m.SaveSession(); err == nil {
+		switch kind {
+		case "file":
+			saved = c12ShowLoad(session.NewFromFile(storePath).Load())
+		case "mem":
+			saved = c12ShowLoad(mem.Load())
+		case "nil":
+			saved = c12ShowLoad(session.NewFromFile(filePath).Load())
+		}
+	}
+	o := "-"
+	if kind != "nil" {
+		o = "same"
+		if look(other) != otherWas {
+			o = "changed"
+		}
+	}
+	return fmt.Sprintf("client=%s saved=%s other=%s", client, saved, o)
+}
+
 // ---- oracle -------------------------------------------------------------------------------------
 
 // c12Same: the loaded session shown as `got` is the stored one. Host names that are not valid
@@ -580,6 +798,66 @@ func c12Judge(op []string, out string) string {
 				return "client started on a torn session file does not report an error: " + out
 			}
 		}
+	case "c12.cfg":
+		return c12JudgeCfg(op, kv(out))
+	}
+	return ""
+}
+
+// c12JudgeCfg: a Config that names a SessionStorage is served by THAT storage, whatever AuthKeyFile says: the client
+// resumes with the session the storage holds (or starts fresh when it holds none), saves into it, and leaves the file
+// alone. Without a SessionStorage the file at AuthKeyFile is the storage; without either there is no client.
+func c12JudgeCfg(op []string, f map[string]string) string {
+	kind, state, file := op[1], op[2], op[3]
+	a, b := c12ParseSess(op[4]), c12ParseSess(op[5])
+	cfgd := fmt.Sprintf("Config{SessionStorage: %s holding %s, AuthKeyFile: %s}", kind, map[string]string{"1": "session A", "0": "nothing"}[state],
+		map[string]string{"unset": `""`, "0": "a path without a file", "1": "the file of session B", "nodir": "a path in a directory that does not exist"}[file])
+	if strings.HasPrefix(file, "t") {
+		cfgd = strings.Replace(cfgd, "AuthKeyFile: }", "AuthKeyFile: the first "+file[1:]+" bytes of the file of session B}", 1)
+	}
+	// the session the client must resume with (nil: it must start fresh), or no client at all
+	var want *c12Sess
+	noClient := ""
+	switch {
+	case kind != "nil" && state == "1":
+		want = &a
+	case kind != "nil":
+	case file == "unset":
+		noClient = "Cerr:nostorage"
+	case file == "1":
+		want = &b
+	case strings.HasPrefix(file, "t") && atoi(file[1:]) < len(specFile(b)):
+		noClient = "Cerr:"
+	case strings.HasPrefix(file, "t"):
+		want = &b
+	}
+	cl := f["client"]
+	if noClient != "" {
+		if !strings.HasPrefix(cl, noClient) {
+			return fmt.Sprintf("%s: NewMTProto must refuse (%s…), it returned %s", cfgd, noClient, cl)
+		}
+		return ""
+	}
+	blank := "C0:-/-/0/" + showBytes([]byte(c12CfgHost))
+	if want != nil {
+		if !strings.HasPrefix(cl, "C1:") || !c12Same("ok:"+cl[3:], *want) {
+			return fmt.Sprintf("%s: the client must resume with the session its storage holds (%s, already-encrypted state); it is %s", cfgd, want.show(), cl)
+		}
+	} else if cl != blank {
+		return fmt.Sprintf("%s: the storage holds nothing, the client must start fresh (%s); it is %s", cfgd, blank, cl)
+	}
+	if kind == "nil" && file == "nodir" {
+		return "" // nowhere to save to
+	}
+	if want != nil {
+		if !c12Same(f["saved"], *want) {
+			return fmt.Sprintf("%s: after SaveSession the storage the client was started on holds %s, the client's session is %s", cfgd, f["saved"], want.show())
+		}
+	} else if f["saved"] != "ok:-/-/0/"+showBytes([]byte(c12CfgHost)) {
+		return fmt.Sprintf("%s: after SaveSession of the fresh client the storage it was started on holds %s", cfgd, f["saved"])
+	}
+	if kind != "nil" && f["other"] != "same" {
+		return fmt.Sprintf("%s: SaveSession changed what is at the AuthKeyFile path, which a Config with a SessionStorage ignores", cfgd)
 	}
 	return ""
 }
@@ -1041,6 +1319,16 @@ func c12Gen(g *G) {
 			g.Emit("c12.rt "+sh+" "+c12GenSess(g).token(), "rt-"+sh)
 		}
 	}
+	// the same round trips in a process whose temporary directory is missing / is a file / is on another filesystem:
+	// the session path's directory is all Store may depend on
+	for _, sh := range c12Shapes {
+		for _, env := range c12Envs {
+			g.Emit("c12.rt "+sh+"+"+env+" "+c12Sess{key: []byte{1, 2, 3}, hash: []byte{4}, salt: -2, host: []byte("h:1")}.token(), "rt-"+sh, "env-"+env)
+			for i := g.N(4, 200); i > 0; i-- {
+				g.Emit("c12.rt "+sh+"+"+env+" "+c12GenSess(g).token(), "rt-"+sh, "env-"+env)
+			}
+		}
+	}
 	// host names made of JSON-significant text: stored, read by the same and by a fresh loader, byte for byte
 	jsonHosts := c12JsonHosts(g.Thorough())
 	for i, h := range jsonHosts {
@@ -1102,6 +1390,10 @@ func c12Gen(g *G) {
 			tag = "history-multi-loader"
 		}
 		items = append(items, "H")
+		if g.R.Intn(5) == 0 {
+			g.Emit("c12.seq "+c12InEnv(g, sh)+" "+strings.Join(items, " "), tag, "history-in-another-environment")
+			continue
+		}
 		g.Emit("c12.seq "+sh+" "+strings.Join(items, " "), tag)
 	}
 	// clients started one after another on ONE long-lived loader (an application that recreates its client keeps
@@ -1144,6 +1436,10 @@ func c12Gen(g *G) {
 		items = append(items, "L:0", "F", "H")
 		if g.R.Intn(5) == 0 {
 			items = append(items, "D", "C:0", "L:0", "H")
+		}
+		if g.R.Intn(5) == 0 {
+			g.Emit("c12.seq "+c12InEnv(g, sh)+" "+strings.Join(items, " "), "history-clients-on-one-loader", "history-in-another-environment")
+			continue
 		}
 		g.Emit("c12.seq "+sh+" "+strings.Join(items, " "), "history-clients-on-one-loader")
 	}
@@ -1198,6 +1494,10 @@ func c12Gen(g *G) {
 			}
 		}
 		items = append(items, "H")
+		if g.R.Intn(5) == 0 {
+			g.Emit("c12.nat "+c12InEnv(g, sh)+" "+strings.Join(items, " "), "history-real-clock", "history-in-another-environment")
+			continue
+		}
 		g.Emit("c12.nat "+sh+" "+strings.Join(items, " "), "history-real-clock")
 	}
 	// every strict prefix of a written file
@@ -1225,6 +1525,42 @@ func c12Gen(g *G) {
 		if i%4 == 0 {
 			g.Emit("c12.resume 0 "+s.token(), "resume-missing")
 			g.Emit(fmt.Sprintf("c12.resume t%d %s", g.R.Intn(len(specFile(s))), s.token()), "resume-torn")
+		}
+	}
+	// the two ways a Config names its session storage, one at a time and both at once: every combination of
+	// {storage: file loader, own implementation, nil} x {holds a session, holds nothing} x {AuthKeyFile: unset, no
+	// file there, another session's file, that file cut short, no directory}
+	realSess := func() c12Sess {
+		s := c12GenSess(g)
+		if g.R.Intn(3) > 0 {
+			s.key, s.hash = g.R.Bytes(256), g.R.Bytes(8)
+		}
+		return s
+	}
+	for _, kind := range []string{"file", "mem", "nil"} {
+		for _, state := range []string{"1", "0"} {
+			if kind == "nil" && state == "1" {
+				continue
+			}
+			for _, file := range []string{"unset", "0", "1", "t", "nodir"} {
+				for i := g.N(3, 120); i > 0; i-- {
+					a, b := realSess(), realSess()
+					f := file
+					if f == "t" {
+						f = fmt.Sprintf("t%d", g.R.Intn(len(specFile(b))))
+					}
+					tag := "cfg-storage-only"
+					switch {
+					case kind == "nil" && file == "unset":
+						tag = "cfg-neither"
+					case kind == "nil":
+						tag = "cfg-file-only"
+					case file != "unset":
+						tag = "cfg-storage-and-file"
+					}
+					g.Emit(fmt.Sprintf("c12.cfg %s %s %s %s %s", kind, state, f, a.token(), b.token()), tag)
+				}
+			}
 		}
 	}
 }
